@@ -129,5 +129,14 @@ func TestC03Sweep(t *testing.T) {
 			cases = append(cases, statCase{Test: "cusum", Flag: z%2 == 1, Seq: gen.Seq{Family: "walk", N: n, Seed: uint64(z), A: z}})
 		}
 	}
+	// lengths just above 2^20 and a few millions of bits for every parameter (implementations that work in windows / chunks)
+	for _, n := range []int{1048577, 1048585, 3000001, 4194304} {
+		for _, k := range []int{3, 7, 15} {
+			cases = append(cases, statCase{Test: "binderiv", M: k, Seq: gen.Seq{Family: "uniform", N: n, Seed: uint64(n + k)}})
+		}
+		for _, d := range []int{1, 2, 8, 16, 32} {
+			cases = append(cases, statCase{Test: "autocorr", M: d, Seq: gen.Seq{Family: "uniform", N: n, Seed: uint64(n + d)}})
+		}
+	}
 	enumerate(t, "C03", cases, checkC03)
 }
